@@ -6,6 +6,7 @@ package checks
 
 import (
 	"fmt"
+	"math"
 	"math/big"
 	"sort"
 	"strings"
@@ -272,6 +273,33 @@ func (c *c18) ints() {
 			}
 		}
 	}
+	// the int64-argument variants, over every int64 of the alphabet plus the int64 bounds
+	var raws []int64
+	seenRaw := map[int64]bool{}
+	for _, x := range append(append([]*big.Int{}, A...), big.NewInt(math.MinInt64), big.NewInt(math.MinInt64+1), big.NewInt(math.MaxInt64), big.NewInt(math.MaxInt64-1)) {
+		if x.IsInt64() && !seenRaw[x.Int64()] {
+			seenRaw[x.Int64()] = true
+			raws = append(raws, x.Int64())
+		}
+	}
+	c.r.Set("int64_alphabet", len(raws))
+	for _, a := range A {
+		for _, r := range raws {
+			ia, b := mkInt(a), big.NewInt(r)
+			c.expectInt("Int.AddRaw", a, b, new(big.Int).Add(a, b), inIntRange, func() *big.Int { return ia.AddRaw(r).BigInt() })
+			c.expectInt("Int.SubRaw", a, b, new(big.Int).Sub(a, b), inIntRange, func() *big.Int { return ia.SubRaw(r).BigInt() })
+			c.expectInt("Int.MulRaw", a, b, new(big.Int).Mul(a, b), inIntRange, func() *big.Int { return ia.MulRaw(r).BigInt() })
+			if r != 0 {
+				c.expectInt("Int.QuoRaw", a, b, new(big.Int).Quo(a, b), inIntRange, func() *big.Int { return ia.QuoRaw(r).BigInt() })
+				if a.Sign() >= 0 && r > 0 {
+					c.expectInt("Int.ModRaw", a, b, new(big.Int).Mod(a, b), inIntRange, func() *big.Int { return ia.ModRaw(r).BigInt() })
+				}
+			}
+			if ia.BigInt().Cmp(a) != 0 {
+				c.fail("C18/Int/operand-mutated", fmt.Sprintf("operand %s changed by a Raw operation with %d", a, r), map[string]string{"a": a.String(), "b": b.String()})
+			}
+		}
+	}
 	// unary + conversions + codec round trips
 	for _, a := range A {
 		ia := mkInt(a)
@@ -361,6 +389,15 @@ func (c *c18) uints() {
 			c.expectInt("MaxUint", a, b, mx, inUintRange, func() *big.Int { return val(sdk.MaxUint(ua, ub)) })
 			if val(ua).Cmp(a) != 0 || val(ub).Cmp(b) != 0 {
 				c.fail("C18/Uint/operand-mutated", "Uint operand changed", map[string]string{"a": a.String(), "b": b.String()})
+			}
+		}
+		for _, r := range []uint64{0, 1, 2, 10, 1000000, math.MaxUint64 - 1, math.MaxUint64} {
+			ua, b := mk(a), new(big.Int).SetUint64(r)
+			c.expectInt("Uint.AddUint64", a, b, new(big.Int).Add(a, b), inUintRange, func() *big.Int { return val(ua.AddUint64(r)) })
+			c.expectInt("Uint.SubUint64", a, b, new(big.Int).Sub(a, b), inUintRange, func() *big.Int { return val(ua.SubUint64(r)) })
+			c.expectInt("Uint.MulUint64", a, b, new(big.Int).Mul(a, b), inUintRange, func() *big.Int { return val(ua.MulUint64(r)) })
+			if r != 0 {
+				c.expectInt("Uint.QuoUint64", a, b, new(big.Int).Quo(a, b), inUintRange, func() *big.Int { return val(ua.QuoUint64(r)) })
 			}
 		}
 		ua := mk(a)
@@ -506,7 +543,47 @@ func coinsToSet(cs sdk.Coins) (coinSet, bool) {
 	return s, true
 }
 
+// newCoinsWithZeros: NewCoins is documented to drop zero-amount coins and return the canonical set
+// of the others; every list of up to 4 coins over 4 sorted denominations and amounts {0,0,3}
+// (so that runs of adjacent zero coins occur in every position).
+func (c *c18) newCoinsWithZeros() {
+	denoms := []string{"aaa", "bbb", "ccc", "ddd"}
+	amts := []int64{-9, 0, 3} // -9 = denomination absent from the list
+	var rec func(i int, cur []int64)
+	rec = func(i int, cur []int64) {
+		if i == len(denoms) {
+			var in []sdk.Coin
+			var want []string
+			for j, a := range cur {
+				if a == -9 {
+					continue
+				}
+				in = append(in, sdk.NewInt64Coin(denoms[j], a))
+				if a > 0 {
+					want = append(want, fmt.Sprintf("%d%s", a, denoms[j]))
+				}
+			}
+			c.eval++
+			var got sdk.Coins
+			rep := map[string]string{"op": "NewCoins", "a": fmt.Sprint(in), "b": ""}
+			if p, msg := try(func() { got = sdk.NewCoins(in...) }); p {
+				c.fail("C18/NewCoins/panic-on-zero-amounts", fmt.Sprintf("NewCoins(%v) panicked: %s (zero-amount coins are to be dropped)", in, msg), rep)
+				return
+			}
+			if got.String() != strings.Join(want, ",") || (len(got) > 0 && !got.IsValid()) {
+				c.fail("C18/NewCoins/not-canonical", fmt.Sprintf("NewCoins(%v) = %q, want %q", in, got.String(), strings.Join(want, ",")), rep)
+			}
+			return
+		}
+		for _, a := range amts {
+			rec(i+1, append(cur, a))
+		}
+	}
+	rec(0, nil)
+}
+
 func (c *c18) coins() {
+	c.newCoinsWithZeros()
 	amts := []int64{0, 1, 2, 5}
 	var sets []coinSet
 	for _, x := range amts {
